@@ -6,6 +6,7 @@ package main
 import (
 	"fmt"
 	"go/token"
+	"go/types"
 	"sort"
 	"strings"
 
@@ -629,6 +630,9 @@ func checkC07(c *Ctx) Meta {
 	c.Rule("C07-VERIFY", "GetProof returns a non-nil proof only on the success edge of poc.VerifyProof(proof, mdb.pubKeyHash, challenge, filter) applied to the very proof returned", 3)
 	c.Rule("C07-READ", "plotting passes consume reads completely: every io.Reader-shaped Read in the plotting functions is io.ReadFull/ReadAtLeast or has its byte count tested; its error reaches the return", 1)
 	c.Rule("C07-FRESH", "every window of both passes is computed into a freshly allocated (zeroed) cache, so slots the construction leaves empty read as empty", 4)
+	c.Rule("C07-SCAN", "every window of the second pass considers every pair of map A: the read position is the start of map A (no window-dependent term) and the pair loop runs from 0 to half, because a pair lands in a window by its z, not by its position", 2)
+	c.Rule("C07-OWN", "a proof handed out is owned by the caller: the byte slices HashMapB.Get / HashMapA.Get return derive from a buffer allocated in that call, never from storage held by the map object (which the next lookup would overwrite after VerifyProof has passed)", 2)
+	checkC07ScanOwn(c)
 	c.Rule("C07-FORWARD", "the keeper forwards proof and error of MassDB.GetProof unchanged and the miner drops entries whose Error is non-nil", 2)
 
 	if f := c.MustFn("C07-VERIFY", "poc/engine/massdb/massdb.v1", "(*MassDBV1).GetProof"); f != nil {
@@ -1214,4 +1218,140 @@ func cellKnownNonNil(fn *ssa.Function, v ssa.Value, use ssa.Instruction) bool {
 		}
 	})
 	return found
+}
+
+func checkC07ScanOwn(c *Ctx) {
+	if f := c.MustFn("C07-SCAN", "poc/engine/massdb/massdb.v1", "(*MassDBV1).plotWork"); f != nil {
+		reads := callsIn(f, "io.ReadFull")
+		if len(reads) == 0 {
+			c.Bad("C07-SCAN", "plotWork:anchor", c.Pos(f.Pos()), "reason=anchor-missing: io.ReadFull in the pair loop")
+		} else {
+			rd := reads[0]
+			// the loop variable: phi compared with `half` in a re-entered block dominating the read
+			var yphi *ssa.Phi
+			allInstrs(f, func(in ssa.Instruction) {
+				iff, ok := in.(*ssa.If)
+				if !ok || !iff.Block().Dominates(rd.Block()) || !blockReentered(f, iff) {
+					return
+				}
+				if cmp, isB := iff.Cond.(*ssa.BinOp); isB && cmp.Op == token.LSS {
+					if ph, isP := cmp.X.(*ssa.Phi); isP && ph.Block() == iff.Block() {
+						// innermost: keep the one whose block is dominated by previous candidates
+						if yphi == nil || yphi.Block().Dominates(ph.Block()) {
+							yphi = ph
+						}
+					}
+				}
+			})
+			key := "plotWork:pair-loop-from-zero"
+			if yphi == nil {
+				c.Bad("C07-SCAN", key, c.Pos(rd.Pos()), "reason=anchor-missing: the loop over the pairs of map A")
+			} else {
+				zero := false
+				other := true
+				for _, e := range yphi.Edges {
+					if k, isK := strip(e).(*ssa.Const); isK && k.Value != nil {
+						if k.Value.ExactString() == "0" {
+							zero = true
+						} else {
+							other = false
+						}
+						continue
+					}
+					if !backSlice(e).has(yphi) {
+						other = false // an initial value that is not the constant 0
+					}
+				}
+				if zero && other {
+					c.OK("C07-SCAN", key, c.Pos(yphi.Pos()), "y starts at the constant 0 in every window")
+				} else {
+					c.Bad("C07-SCAN", key, c.Pos(yphi.Pos()), "the pair loop of a window does not start at 0: pairs below its start are never considered, so proofs whose pair precedes the window start are silently missing from every later (or resumed) window")
+				}
+			}
+			// the read position
+			key = "plotWork:read-from-start-of-map-A"
+			var seek *ssa.Call
+			allInstrs(f, func(in ssa.Instruction) {
+				if cl, ok := in.(*ssa.Call); ok && strings.HasSuffix(calleeID(cl), "os.File).Seek") && strings.Contains(accessPath(callRecv(cl)), "HashMapA") && reach(f, cl, nil, nil)(rd) {
+					seek = cl
+				}
+			})
+			if seek == nil {
+				c.Bad("C07-SCAN", key, c.Pos(rd.Pos()), "reason=anchor-missing: Seek on map A's file before the pair loop")
+			} else {
+				hasPhi, hasOffset := false, false
+				for x := range backSlice(callArgs(seek)[0]).vals {
+					if _, isP := x.(*ssa.Phi); isP {
+						hasPhi = true
+					}
+					if _, fld, _, ok := fieldOfValue(x); ok && fld == "offset" {
+						hasOffset = true
+					}
+				}
+				if hasOffset && !hasPhi {
+					c.OK("C07-SCAN", key, c.Pos(seek.Pos()), "Seek(hmA.offset): no window-dependent term")
+				} else {
+					c.Bad("C07-SCAN", key, c.Pos(seek.Pos()), "the read position of a window depends on the window (or is not map A's offset): the pairs read no longer are all pairs of map A")
+				}
+			}
+		}
+	}
+	for _, name := range []string{"(*HashMapB).Get", "(*HashMapA).Get"} {
+		f := c.MustFn("C07-OWN", "poc/engine/massdb/massdb.v1", name)
+		if f == nil {
+			continue
+		}
+		key := strings.NewReplacer("(", "", "*", "", ")", "").Replace(name) + ":returns-caller-owned-bytes"
+		bad := ""
+		n := 0
+		for _, ret := range returnsOf(f) {
+			for _, r := range ret.Results {
+				if _, isS := r.Type().Underlying().(*types.Slice); !isS {
+					continue
+				}
+				valueOrigins(f, r, func(root ssa.Value) {
+					var chase func(v ssa.Value, d int)
+					chase = func(v ssa.Value, d int) {
+						if d > 6 {
+							return
+						}
+						switch x := v.(type) {
+						case *ssa.Const:
+						case *ssa.Slice:
+							chase(x.X, d+1)
+						case *ssa.Alloc:
+							n++
+							if x.Parent() != f {
+								bad = "a buffer of the enclosing function"
+							}
+						case *ssa.MakeSlice:
+							n++
+						case *ssa.FieldAddr, *ssa.Field:
+							bad = "storage held in " + accessPath(x)
+						case *ssa.UnOp:
+							if _, _, _, ok := fieldOfValue(x); ok {
+								bad = "storage held in " + accessPath(x)
+							} else {
+								valueOrigins(f, x.X, func(r2 ssa.Value) {
+									if r2 != v {
+										chase(r2, d+1)
+									}
+								})
+							}
+						default:
+							bad = "a value of unknown ownership (" + v.String() + ")"
+						}
+					}
+					chase(root, 0)
+				})
+			}
+		}
+		if bad != "" {
+			c.Bad("C07-OWN", key, c.Pos(f.Pos()), "the bytes returned alias "+bad+": a proof already verified and handed out is rewritten by the next lookup on the same space")
+		} else if n == 0 {
+			c.Bad("C07-OWN", key, c.Pos(f.Pos()), "reason=anchor-missing: no byte slice is returned")
+		} else {
+			c.OK("C07-OWN", key, c.Pos(f.Pos()), "returned slices are cut from a buffer allocated in the call")
+		}
+	}
 }
